@@ -17,6 +17,7 @@ TOKENS = [["i", 1], ["s", "1"], ["s", "t"]]
 CREATE = "window/workDoneProgress/create"
 KINDS = ["begin", "report", "end"]
 _SHARED = {}
+_EARLIER = {}          # id(future) -> future: cancellation futures seen in EARLIER cases of this process
 
 
 def _shared():
@@ -64,6 +65,7 @@ def run_case(case):
     uuids, reqs, suspended, seen_futs = [], [], [], []
     refused = 0
     trace = []
+    foreign = []
 
     def feed(obj):
         body = json.dumps(obj).encode("utf-8")
@@ -159,6 +161,8 @@ def run_case(case):
             toks = []
             for t, f in progress.tokens.items():
                 if not any(f is g for g in seen_futs):
+                    if _EARLIER.get(id(f)) is f:
+                        foreign.append(canon_tok(t))      # an object another Progress instance handed out
                     seen_futs.append(f)
                 toks.append([canon_tok(t), bool(f.cancelled()), [i for i, g in enumerate(seen_futs) if g is f][0]])
             fk, rk = c05.table_keys(proto)
@@ -168,7 +172,7 @@ def run_case(case):
                           "fk": c05.sort_ids([canon_id(x) for x in fk]),
                           "rk": c05.sort_ids([canon_id(x) for x in rk]),
                           "x": {"seen": [bool(f.cancelled()) for f in seen_futs],
-                                "idx": {core.canon(t): i for t, _, i in toks}}})
+                                "idx": {core.canon(t): i for t, _, i in toks}, "foreign": list(foreign)}})
         out = []
         for f in writer.frames:
             if "id" in f and "method" in f:
@@ -179,6 +183,10 @@ def run_case(case):
                 out.append(["progress", canon_tok(f["params"]["token"]), kind, v])
             else:
                 out.append(["other", f.get("method")])
+        for f in seen_futs:
+            _EARLIER[id(f)] = f
+        while len(_EARLIER) > 4096:
+            _EARLIER.pop(next(iter(_EARLIER)))
         return {"trace": trace, "out": out}
     except Exception as ex:
         return ["raise", type(ex).__name__, str(ex)[:100]]
@@ -378,7 +386,7 @@ class C20(core.Property):
         if [o for o in impl["out"] if o[0] == "progress"] != S["progress"]:
             return False
         trace, evs = impl["trace"], c["evs"]
-        prev = {"futs": [], "hooks": 0, "nout": 0, "refused": 0, "tokens": [], "x": {"seen": [], "idx": {}}}
+        prev = {"futs": [], "hooks": 0, "nout": 0, "refused": 0, "tokens": [], "x": {"seen": [], "idx": {}, "foreign": []}}
         begun, reg_expect, waiting = set(), set(), []
         created = []                     # per sent create request: (token key, async?)
         for e, d in zip(evs, trace):
@@ -386,6 +394,20 @@ class C20(core.Property):
             seen0, seen1 = prev["x"]["seen"], d["x"]["seen"]
             regs0 = {core.canon(t) for t, _ in prev["tokens"]}
             frames = impl["out"][prev["nout"]:d["nout"]]
+            # one cancellation future per token: never shared between tokens, never one that another
+            # Progress instance (an earlier server of this process) handed out, and born not cancelled
+            idx1, idx0 = d["x"]["idx"], prev["x"]["idx"]
+            if len(set(idx1.values())) != len(idx1) or d["x"].get("foreign"):
+                return False
+            flags0 = {core.canon(t): cf for t, cf in prev["tokens"]}
+            for t, cf in d["tokens"]:
+                key = core.canon(t)
+                if idx0.get(key) != idx1[key]:
+                    if cf:
+                        return False                               # a freshly registered token is born cancelled
+                elif k != "ccancel" or key != core.canon(e[1]):
+                    if cf != flags0[key]:
+                        return False                               # some other token's cancelled() changed
             changed = [i for i in range(len(seen0)) if seen0[i] != seen1[i]]
             if k == "ccancel":
                 key = core.canon(e[1])
@@ -445,11 +467,10 @@ class C20(core.Property):
         return False
 
     def shrink(self, c):
-        evs = c["evs"]
-        for i in range(len(evs)):
-            if evs[i][0] in ("create", "acreate"):
-                continue
-            yield {"evs": evs[:i] + evs[i + 1:]}
+        # no shrinking: histories are short, and a candidate would be judged in a process whose
+        # module-level state (e.g. a cancellation future shared through a default argument) earlier
+        # cases have already changed - the replay must fail on its own in a fresh process
+        return []
 
     def distribution(self, cases):
         d = {}
